@@ -46,3 +46,39 @@ package vgirpc
 //@ func ProofAuthenticate$1
 //@   property C25
 //@   at call "captured:inner" assert [gate] perr == nil || !required
+
+// ---- the replay cache (C25): a nonce that is remembered and whose entry has not expired is
+// refused; entries leave the cache only when they have expired or when the cache is full.
+//
+// wfNonce: every key maps to an element of the order list that holds an entry for that very
+// key, and every element of the list is the map's entry for the nonce it holds.
+//
+//@ pure func entryOf(e *list.Element) *nonceEntry = as(e.Value, "*nonceEntry")
+//@ pure func wfNonce(c *nonceCache) bool = c != nil && c.order != nil && c.entries != nil && c.capacity > 0 &&
+//@     (forall k string :: has(c.entries, k) ==> c.entries[k] != nil && c.entries[k].list == c.order &&
+//@         typeof(c.entries[k].Value) == *nonceEntry && entryOf(c.entries[k]) != nil && entryOf(c.entries[k]).nonce == k) &&
+//@     (forall e *list.Element :: e != nil && e.list == c.order ==>
+//@         typeof(e.Value) == *nonceEntry && entryOf(e) != nil && has(c.entries, entryOf(e).nonce) && c.entries[entryOf(e).nonce] == e)
+//
+// the clock callback reads the time and touches nothing of the cache (assumed: time.Now, or a test clock)
+//@ func "field:nonceCache.now" ()
+//@   modifies nothing
+//
+//@ func (*nonceCache).checkAndAdd
+//@   property C25
+//@   boundary
+//@   requires wfNonce(c)
+//@   # (true of every heap: what the map holds when the call starts was allocated before the call)
+//@   requires forall k string :: has(c.entries, k) ==> !fresh(c.entries[k]) && !fresh(entryOf(c.entries[k]))
+//@   nopanic(typeassert, nil)
+//@   loop 0 invariant wfNonce(c) && (forall k string :: has(c.entries, k) ==> !fresh(c.entries[k]) && !fresh(entryOf(c.entries[k])))
+//@   loop 0 invariant [kept0] old(has(c.entries, nonce)) && timeAfter(old(entryOf(c.entries[nonce]).expiresAt), now) ==> has(c.entries, nonce)
+//@   loop 1 invariant wfNonce(c) && !has(c.entries, nonce) && (forall k string :: has(c.entries, k) ==> !fresh(c.entries[k]) && !fresh(entryOf(c.entries[k])))
+//@   ensures [local_replayrefused_ret2] old(has(c.entries, nonce)) && timeAfter(old(entryOf(c.entries[nonce]).expiresAt), now) ==> !result
+//@   ensures [local_replayrefused_ret3] old(has(c.entries, nonce)) && timeAfter(old(entryOf(c.entries[nonce]).expiresAt), now) ==> !result
+//@   ensures [wfkeys] forall k string :: has(c.entries, k) ==> c.entries[k] != nil && c.entries[k].list == c.order &&
+//@         typeof(c.entries[k].Value) == *nonceEntry && entryOf(c.entries[k]) != nil && entryOf(c.entries[k]).nonce == k
+//@   ensures [wfelems] forall e *list.Element :: e != nil && e.list == c.order ==>
+//@         typeof(e.Value) == *nonceEntry && entryOf(e) != nil && has(c.entries, entryOf(e).nonce) && c.entries[entryOf(e).nonce] == e
+//@   ensures [wf] wfNonce(c)
+//@   ensures [remembered] result ==> has(c.entries, nonce)
